@@ -38,4 +38,76 @@ def fprint3 (c : MemoCfg) (m : Memo) (sink : Sink) (s : PSettings) (v : Val3) (r
   | none => none
   | some (_, feeds) => some (printRun .v3 sink (positionsEnd ranges) s feeds)
 
+/-! ### Fprint with early exit (failing writers): which digits are REQUESTED
+
+`fromFiniteSequence` leaves the `for … range s.All()` loop right after the `Consume` that latched
+an error (the `yield` of `memoizer.Scan` returns false, so `Scan` returns WITHOUT its next
+`wait`), and is not entered at all — `s.All()` is never ranged over — once the printer cannot
+consume. The functions below thread the memoizer state through exactly these requests. -/
+
+/-- one range: printer state and memoizer state after `fromFiniteSequence(s.WithStart(a).WithEnd(b), printer)` -/
+def rangeFault3 (c : MemoCfg) (m : Memo) (pr : Printer) (v : Val3) (r : PRange) :
+    Option (Except Panic (Memo × Printer)) :=
+  match v.apply (.withStart r.start) with
+  | some (.ok v1) =>
+    match v1.apply (.withEnd r.stop) with
+    | some (.ok v2) =>
+      if !pr.raw.canConsume then some (.ok (m, pr))          -- returns before ranging over s.All()
+      else
+        match v2.forward c m ((r.stop - r.start).toNat + 1) with
+        | .error p => some (.error p)
+        | .ok (mFull, xs) =>
+          match pr.feed xs with
+          | .error p => some (.error p)
+          | .ok pr' =>
+            if pr'.raw.canConsume then some (.ok (mFull, pr'))   -- the loop ran to the end of the range
+            else
+              -- left after `pulled` items: the traversal with a consumer that stops there
+              match v2.forward c m (pr'.pulled - pr.pulled) with
+              | .error p => some (.error p)
+              | .ok (mj, _) => some (.ok (mj, pr'))
+    | _ => none
+  | _ => none
+
+def rangesFault3 (c : MemoCfg) : Memo → Printer → Val3 → List PRange → Option (Except Panic (Memo × Printer))
+  | m, pr, _, [] => some (.ok (m, pr))
+  | m, pr, v, r :: rs =>
+    match rangeFault3 c m pr v r with
+    | none => none
+    | some (.error p) => some (.error p)
+    | some (.ok (m', pr')) => rangesFault3 c m' pr' v rs
+
+/-- `Fprint(w, s, p, options…)` (v3) with the memoizer state it leaves behind -/
+def fprintFault3 (c : MemoCfg) (m : Memo) (sink : Sink) (s : PSettings) (v : Val3) (ranges : List PRange) :
+    Option (Except Panic (PrintResult × Memo)) :=
+  match rangesFault3 c m (newPrinter .v3 sink (positionsEnd ranges) s) v ranges with
+  | none => none
+  | some (.error p) => some (.error p)
+  | some (.ok (m', pr)) =>
+    match pr.raw.finish with
+    | .error p => some (.error p)
+    | .ok raw => some (.ok (⟨raw.w.sink.accepted, raw.w.sink.bytesWritten, raw.err, pr.pulled, raw.w.sink.calls⟩, m'))
+
+/-- `Fwrite(w, s, options…)` (v3) on a finite value with the memoizer state it leaves behind:
+`endOf(s)` first (one step of `Backward()`), then `fromFiniteSequence` -/
+def fwriteFault3 (c : MemoCfg) (m : Memo) (sink : Sink) (s : PSettings) (v : Val3) (size : Nat) :
+    Option (Except Panic (PrintResult × Memo)) :=
+  if !v.assertsFiniteSeq then none else
+  let (m1, bk) := v.backward c m 1
+  let maxDigits : Int := match bk.head? with | some (p, _) => (p : Int) + 1 | none => 0
+  let pr := newPrinter .v3 sink maxDigits s
+  let fin := fun (m' : Memo) (pr : Printer) => match pr.raw.finish with
+    | .error p => some (Except.error p)
+    | .ok raw => some (.ok ((⟨raw.w.sink.accepted, raw.w.sink.bytesWritten, raw.err, pr.pulled, raw.w.sink.calls⟩ : PrintResult), m'))
+  match v.forward c m1 (size + 1) with
+  | .error p => some (.error p)
+  | .ok (mFull, xs) =>
+    match pr.feed xs with
+    | .error p => some (.error p)
+    | .ok pr' =>
+      if pr'.raw.canConsume then fin mFull pr'
+      else match v.forward c m1 pr'.pulled with
+        | .error p => some (.error p)
+        | .ok (mj, _) => fin mj pr'
+
 end Sqroot.Model
